@@ -67,6 +67,52 @@ def check(ctx, cfg):
     r9(ctx, cfg)
     r10(ctx, cfg)
     r11(ctx, cfg)
+    r12(ctx, cfg)
+
+
+def r12(ctx, cfg):
+    """"with its payload intact" down to the contract: the bytes a contract entry point receives are the bytes of the message - the
+    `msg` argument of each call_execute / call_instantiate / call_sudo / call_reply / call_migrate is the message's own field
+    as it is, and each call_X invokes `Contract::X(handler, deps, env, [info,] msg)` with its own `info` / `msg` parameters"""
+    F, P = cfg.facts, cfg.prov
+    R = "C17.R12"
+    W = "wasm::WasmKeeper::"
+    def fld(owner, name, arm=None):
+        def pred(y):
+            y = peel(y)
+            if not (y[0] == "field" and y[2] == name):
+                return False
+            b = peel(y[1])
+            if arm is not None:
+                return b[0] == "variant" and b[2] == arm and is_param(b[1], owner)
+            return is_param(b, owner)
+        return pred
+    sites = [(W + "execute_wasm", W + "call_execute", fld("msg", "msg", "Execute")),
+             (W + "process_wasm_msg_instantiate", W + "call_instantiate", lambda y: is_param(y, "msg")),
+             ("<wasm::WasmKeeper as wasm::Wasm>::sudo", W + "call_sudo", fld("msg", "message")),
+             (W + "reply", W + "call_reply", lambda y: is_param(y, "reply")),
+             (W + "execute_wasm", W + "call_migrate", fld("msg", "msg", "Migrate"))]
+    for caller, callee, pred in sites:
+        f = ctx.need_fn(R, caller)
+        if f is None:
+            continue
+        cs = q.calls(f, callee)
+        ok = len(cs) == 1 and just(P.call_args(f, cs[0][1], cs[0][0])[-1], pred)
+        ctx.ob(R, caller, "%s-gets-the-message-as-it-is" % callee.rsplit("::", 1)[-1], ok,
+               "%s does not hand the message's own bytes to %s" % (caller.rsplit("::", 1)[-1], callee.rsplit("::", 1)[-1]), fn=f, sample="msg.to_vec()")
+    for name, extra in (("execute", ("info", "msg")), ("instantiate", ("info", "msg")), ("sudo", ("msg",)), ("reply", ("reply",)), ("migrate", ("msg",))):
+        key = W + "call_" + name
+        f = ctx.need_fn(R, key)
+        if f is None:
+            continue
+        cs = [(g, b, t) for g in F.lexical(key) for b, t in g.calls() if t["callee"]["key"] == "contracts::Contract::" + name]
+        ok = len(cs) == 1
+        if ok:
+            g, b, t = cs[0]
+            a = P.call_args(g, t, b)
+            ok = len(a) == 3 + len(extra) and all(is_param(x, n) for x, n in zip(a[3:], extra))
+        ctx.ob(R, key, "entry-point-invoked-with-own-%s" % "+".join(extra), ok, "call_%s does not invoke Contract::%s(handler, deps, env, %s)" % (name, name, ", ".join(extra)), fn=f,
+               sample="handler.%s(deps, env, %s)" % (name, ", ".join(extra)))
 
 
 def r11(ctx, cfg):
